@@ -21,8 +21,11 @@ ASSUMPTIONS = {
     "A_R": "residual closure: well-formed, one segment per operation",
     "A_E": "apply: well-formed, one segment per operation, one value per target position",
     "A_X": "ExactSizeIterator::len is exact",
+    "A_L": "lax Functor/Optic user methods return label lists determined by their arguments and well-formed lax diagrams",
     "A_OF": "the optic (map_object, map_operations) satisfies the functor contract A_F1/A_F2 when it is applied "
             "to a whole diagram through define_map_arrow (functoriality of the optic is not decided)",
+    "A_DYN": "DynFunctor (a lax functor wrapped for the strict machinery) satisfies the strict functor contract, "
+             "given the lax functor's documented consistency of map_operation with map_object",
     "A_O": "optic generators: fwd : F(A) -> F(B)●M and rev : M●R(B) -> R(A), as stated by the optic's two debug_assert_eq!",
     "A_L": "lax Functor::map_object/map_operation are consistent (doc: not checked, may panic)",
 }
@@ -167,7 +170,31 @@ def closure(I, f, args):
         return h_residual
     if "apply" in str(key):
         return h_apply
-    return None
+    return h_generic_closure
+
+
+def h_generic_closure(I, st, fr, e, c, a):
+    """An opaque user closure: element-wise when applied to an arbitrary element, otherwise a
+    fresh value determined by the closure and its arguments."""
+    f = a[0]
+    args = a[1:]
+    tyd = I.facts.ty(e["ty"])
+    if len(args) == 1:
+        x = args[0]
+        while isinstance(x, VMutRef):
+            x = I.read_place(st, x.place)
+        if isinstance(x, VUser) and isinstance(x.key, tuple) and x.key and x.key[0] == "elem":
+            return [(st, VUser(("elem", ("umap", f.key, x.key[1]))), None)]
+        if isinstance(x, VSeq) and tyd["k"] == "adt" and tyd["path"].endswith("vec::Vec"):
+            import lax_model
+            lf = leaf(("user", "closure", f.key, x.t))
+            lax_model.LABEL_LEAVES.add(lf)
+            return [(st, VSeq(lf), None)]
+    if tyd["k"] in ("tuple", "adt"):
+        # type-directed fresh result (e.g. the builder closure's two lists of Vars)
+        name = "user:" + str(f.key)
+        return [(st, inv.symbolic(I, st, e["ty"], name, wf=True), None)]
+    return [(st, VUser(("user", "closure", f.key, tuple(repr(x)[:80] for x in args))), None)]
 
 
 def h_residual(I, st, fr, e, c, a):
